@@ -32,6 +32,7 @@ def run(prog, chk):
     degenerate_boxes(prog, chk)
     builder_accumulates(prog, chk)
     path_subpath_start(prog, chk)
+    points_parity(prog, chk)
     use_translation(prog, chk)
     clip_result_stored_whole(prog, chk)
     from props import C16
@@ -314,6 +315,44 @@ def path_subpath_start(prog, chk):
     zt = {tgt for v, tgt in st["vals"] if v in (ord("Z"), ord("z"))}
     reads = [x for (x, i, node) in R.place_reads(b, (".start_pos",)) if any(x == z or b.dominates(z, x) for z in zt)]
     chk.ob(bool(reads), "A15.path-subpath", "process_instruction:close", b.where(sx), "Z / z move to the recorded subpath start", "the closepath arm no longer reads the recorded subpath start")
+
+
+def points_parity(prog, chk):
+    """`points` of a polyline / polygon is a flat list of numbers, alternately x and y whatever mixture of commas and
+    blanks separates them (SVG 1.1 9.7): the counter whose parity tells x from y is set to 0 once, before the scan, and
+    afterwards only incremented per number"""
+    b = prog.body("svgdx::element::SvgElement::bbox_raw")
+    chk.touch(b)
+    cands = set()
+    for x, i, st in b.all_stmts():
+        rv = st.get("rv") or {}
+        if rv.get("k") == "binop" and rv.get("op") == "Rem":
+            k = op_const(rv.get("b")) or {}
+            if k.get("int") == 2:
+                o = R.origin_local(b, rv["a"])
+                if o is not None:
+                    cands.add(o)
+    chk.floor("A13.points-parity", len(cands), 1, "counter tested with `% 2` in bbox_raw")
+    for l in sorted(cands):
+        resets, incs, other = [], 0, []
+        for d in b.defs_of(l):
+            blk, idx, node = d
+            lp = R.loop_containing(b, blk)
+            if idx != R.TERM and node.get("k") == "use" and (op_const(node.get("op")) or {}).get("int") == 0:
+                (resets if lp is not None else []).append(b.where(blk))
+                continue
+            src = node
+            if idx != R.TERM and node.get("k") == "use":
+                pl = op_place(node.get("op"))
+                sd = b.single_def(pl[0]) if pl else None
+                if sd and sd[1] != R.TERM:
+                    src = sd[2]
+            if idx != R.TERM and src.get("k") == "binop" and src.get("op") in ("Add", "AddWithOverflow") and (op_const(src.get("b")) or {}).get("int") == 1:
+                incs += 1
+                continue
+            other.append(b.where(blk))
+        name = b.local_name(l) or f"_{l}"
+        chk.ob(not resets and not other and incs >= 1, "A13.points-parity", f"bbox_raw:{name}", b.where(), f"`{name}` starts at 0 and is only incremented, once per number", f"the x/y parity counter `{name}` of the points scan is also reset / reassigned inside the scan ({', '.join(resets + other)}): after some separator sequences (e.g. `5, 5, 40, 30`) x and y values are told apart wrongly and the polyline's box - and the root extent - is wrong or missing")
 
 
 def use_translation(prog, chk):
